@@ -125,7 +125,7 @@ G_Un ==
   /\ \E op \in RS({"+", "-", "~", "!"}), a \in RN(ScalarC) :
      LET xt == TypeOfUnary(op, a.x, targ)
          f(D) == M_unaryexpr(op, a.m, targ, D)
-         keep == op = "+" /\ a.m.bfn /\ M_exprconvert_same(a.m, M_typepromote(M_exprtype(a.m), a.m.w, targ))
+         keep == "SizeofSeesBitfield" \in Devs /\ op = "+" /\ a.m.bfn /\ M_exprconvert_same(a.m, M_typepromote(M_exprtype(a.m), a.m.w, targ))
      IN /\ Fresh(a) /\ OkBoth(xt, f(Devs))
         /\ Add(Node("(" \o op \o a.e \o ")", XV(xt),
                     [MV(f(Devs)) EXCEPT !.bfn = keep, !.w = IF keep THEN a.m.w ELSE 0],
